@@ -426,3 +426,97 @@ def converge_history(w):
             break
     return {"cases": cases, "reproduced": bool(probs), "detail": "; ".join(probs[:2]) or "client views equal the devices' published views after every step",
             "failures": [{"detail": p, "reproduced": True, "witness": {"replay_kind": "converge.history"}} for p in probs[:3]]}
+
+
+@kind("converge.long_message")
+def converge_long_message(w):
+    """F34 witness: a definition longer than the control connection's junk threshold never reaches the client's mirror"""
+    import indi
+    from indi.routing import Router
+    from indi.device import Driver, properties
+    r = Router()
+
+    class Big(Driver):
+        name = "BIG"
+        g = properties.Group("G", vectors=dict(sw=properties.SwitchVector("SW", rule="AnyOfMany", elements={"k%d" % i: properties.Switch("ELEMENT_NUMBER_%d" % i, label="label %d" % i) for i in range(w.get("n", 60))})))
+    d = Big(router=r)
+    WC = wire_pair(1024, blob_threshold_none=False)       # the control connection keeps the default threshold
+    c = WC(r)
+    c.send_message(indi.message.GetProperties(version="1.7"))
+    size = len(d.g.sw.to_def_message().to_string())
+    seen = "BIG" in c.devices and "SW" in c.devices["BIG"].vectors
+    return {"reproduced": not seen, "detail": "a defSwitchVector of %d characters %s the client's mirror over a connection with the default threshold (reads of 1024)"
+            % (size, "reached" if seen else "never reached")}
+
+
+@kind("converge.two_links")
+def converge_two_links(w):
+    """F35 witness: the library's Client feeds one mirror from two connections; a definition still in flight on the (slower) BLOB
+    connection replaces the property after a newer update arrived on the control connection"""
+    import asyncio
+    import logging
+    logging.disable(logging.CRITICAL)
+    from indi.routing import Router
+    from indi.device import Driver, properties
+    from indi.transport.server.tcp import ConnectionHandler as SrvConn
+    from indi.transport.client.tcp import ConnectionHandler as CliConn
+    from indi.client.client import Client
+
+    class Pipe:
+        def __init__(self):
+            self.buf, self.ev, self.closed = bytearray(), asyncio.Event(), False
+            self.gate = asyncio.Event()
+            self.gate.set()
+
+        def write(self, d):
+            self.buf += d
+            self.ev.set()
+
+        async def drain(self):
+            pass
+
+        def close(self):
+            self.closed = True
+            self.ev.set()
+
+        async def read(self, n):
+            await self.gate.wait()
+            while not self.buf and not self.closed:
+                self.ev.clear()
+                await self.ev.wait()
+                await self.gate.wait()
+            d = bytes(self.buf[:n])
+            del self.buf[:n]
+            return d
+    pipes = []
+
+    class FakeTCP:
+        def __init__(self, router):
+            self.router = router
+
+        async def connect(self, cb, for_blobs=False):
+            c2s, s2c = Pipe(), Pipe()
+            pipes.append((c2s, s2c))
+            asyncio.create_task(SrvConn.handler(self.router)(c2s, s2c))
+            return CliConn(s2c, c2s, cb, for_blobs=for_blobs)
+
+    class Dev(Driver):
+        name = "D"
+        main = properties.Group("MAIN", vectors=dict(num=properties.NumberVector("TEMP", elements=dict(x=properties.Number("T", default=1.0)))))
+
+    async def main():
+        r = Router()
+        d = Dev(router=r)
+        c = Client(FakeTCP(r), FakeTCP(r))
+        await c.start()
+        slow = pipes[1][1]
+        slow.gate.clear()
+        await asyncio.sleep(0.05)
+        d.main.num.x.value = 2.0
+        await asyncio.sleep(0.05)
+        slow.gate.set()
+        await asyncio.sleep(0.05)
+        mirror, truth = c["D"]["TEMP"]["T"].value, "%f" % d.main.num.x.value
+        return mirror, truth
+    mirror, truth = asyncio.run(main())
+    return {"reproduced": mirror != truth, "detail": "at quiescence the client shows T=%s, the device has T=%s" % (mirror, truth)}
